@@ -69,10 +69,11 @@ type facts struct {
 	isnil  map[string]bool
 	minlen map[string]int
 	typeis map[string]bool
+	maybe  map[string]string // path (a field) last assigned from a call that may return nil → why
 }
 
 func newFacts() *facts {
-	return &facts{map[string]bool{}, map[string]bool{}, map[string]bool{}, map[string]bool{}, map[string]int{}, map[string]bool{}}
+	return &facts{map[string]bool{}, map[string]bool{}, map[string]bool{}, map[string]bool{}, map[string]int{}, map[string]bool{}, map[string]string{}}
 }
 
 func (f *facts) clone() *facts {
@@ -94,6 +95,9 @@ func (f *facts) clone() *facts {
 	}
 	for k, v := range f.upper {
 		n.upper[k] = v
+	}
+	for k, v := range f.maybe {
+		n.maybe[k] = v
 	}
 	return n
 }
@@ -134,6 +138,12 @@ func meet(a, b *facts) *facts {
 			n.upper[k] = true
 		}
 	}
+	for k, v := range a.maybe {
+		n.maybe[k] = v
+	}
+	for k, v := range b.maybe {
+		n.maybe[k] = v
+	}
 	return n
 }
 
@@ -150,6 +160,11 @@ func (f *facts) kill(path string) {
 			delete(f.minlen, k)
 		}
 	}
+	for k := range f.maybe {
+		if k == path || strings.HasPrefix(k, path+".") || strings.HasPrefix(k, path+"[") {
+			delete(f.maybe, k)
+		}
+	}
 }
 
 // nilSummary of a module function.
@@ -157,6 +172,8 @@ type nilSummary struct {
 	requires     map[int]string  // parameter index (receiver = 0 for methods) → description of the unguarded dereference
 	mayReturnNil map[int]bool    // result index → may be nil while the error result (if any) is nil
 	nilUnlessOK  map[int]bool    // result index → nil only in returns whose trailing bool result is the constant false
+	uncondNil    map[int]bool    // result index → some nil return is not explained by a nil parameter
+	nilIfParam   map[int]map[int]bool // result index → parameters whose being nil explains the nil returns
 	retFields    map[string]bool // fields of result 0 that are non-nil on every return (constructors)
 	retSeen      bool
 	done         bool
@@ -176,6 +193,9 @@ type nilEngine struct {
 	// (AddNode/AddRootNode argument, append to a []*Node, store into a map[...]*Node) as
 	// operations that need a fact, and single-value lookups in such maps as possibly-nil sources.
 	nodeCollections bool
+	// errLinked: the first result of an external call with results (T, error) is the zero value
+	// when the error is non-nil; it is usable only on the err == nil side
+	errLinked bool
 	c               *Ctx
 	sums            map[*types.Func]*nilSummary
 	decls           map[*types.Func]*declInfo
@@ -253,6 +273,7 @@ type nilWalker struct {
 	named     []types.Object
 	onReturn  func(rs *ast.ReturnStmt, f *facts)
 	okLookups map[types.Object][]string // ok variable of `v, ok := m[k]` → paths known non-nil when ok
+	errLinks  map[types.Object][]string // err variable of `v, err := ext(…)` → paths known non-nil when err == nil
 }
 
 // definedNonNil: e is a local whose every definition is a non-nil construction.
@@ -552,6 +573,11 @@ func (w *nilWalker) absent(e ast.Expr, depth int) (bool, string) {
 			}
 			return false, ""
 		}
+		if w.e.errLinked && (f.Pkg() == nil || !strings.HasPrefix(f.Pkg().Path(), modPath+"/")) {
+			if sig, _ := f.Type().(*types.Signature); sig != nil && sig.Results().Len() == 2 && sig.Results().At(1).Type().String() == "error" && isPtrLike(sig.Results().At(0).Type()) {
+				return true, "the result of " + f.FullName() + " is nil when the call fails"
+			}
+		}
 		if f.Pkg() != nil && strings.HasPrefix(f.Pkg().Path(), modPath+"/") {
 			if s := w.e.summary(f); s.mayReturnNil[0] {
 				return true, objName(f) + " may return nil"
@@ -651,6 +677,11 @@ func (w *nilWalker) need(e ast.Expr, f *facts, kind string, pos token.Pos) {
 				}
 				return
 			}
+		}
+	}
+	if !ab && p != "" {
+		if reason, isMaybe := f.maybe[p]; isMaybe && !f.nonnil[p] {
+			ab, why = true, reason
 		}
 	}
 	if !ab {
@@ -845,6 +876,20 @@ func (w *nilWalker) stmt(s ast.Stmt, f *facts) (*facts, bool) {
 				if mt := info.TypeOf(ix.X); mt != nil {
 					if m, isMap := mt.Underlying().(*types.Map); isMap && isNodePtr(m.Elem()) {
 						w.need(x.Rhs[i], f, "storing it in the node index "+types.ExprString(ix.X)+" (whose entries end up in a node list and are dereferenced without a check)", x.Rhs[i].Pos())
+					}
+				}
+			}
+		}
+		if w.e.errLinked && len(x.Lhs) == 2 && len(x.Rhs) == 1 {
+			if ce, isCall := x.Rhs[0].(*ast.CallExpr); isCall {
+				if fn, _ := typeutil.Callee(info, ce).(*types.Func); fn != nil && (fn.Pkg() == nil || !strings.HasPrefix(fn.Pkg().Path(), modPath+"/")) {
+					if eo := objOf(w.d.pkg, x.Lhs[1]); eo != nil && eo.Type().String() == "error" {
+						if p := w.rawPath(x.Lhs[0]); p != "" && p != "_" {
+							if w.errLinks == nil {
+								w.errLinks = map[types.Object][]string{}
+							}
+							w.errLinks[eo] = []string{p}
+						}
 					}
 				}
 			}
@@ -1146,7 +1191,46 @@ func (w *nilWalker) learnAssign(l ast.Expr, r ast.Expr, f *facts) {
 			f.nonnil[p] = true
 			return
 		}
-		if ab, _ := w.absent(r, 0); !ab {
+		if ab, why := w.absent(r, 0); ab {
+			// a field that receives the result of a call that may return nil: the field may be
+			// nil from here on — unless the callee returns nil only for a nil argument and the
+			// arguments are known to be present
+			if _, isField := l.(*ast.SelectorExpr); isField {
+				if fn, _ := typeutil.Callee(info, x).(*types.Func); fn != nil && fn.Pkg() != nil && strings.HasPrefix(fn.Pkg().Path(), modPath+"/") {
+					sum := w.e.summary(fn)
+					if sum.mayReturnNil[0] && !sum.uncondNil[0] && len(sum.nilIfParam[0]) > 0 {
+						all := true
+						sig := fn.Type().(*types.Signature)
+						off := 0
+						if sig.Recv() != nil {
+							off = 1
+						}
+						for j := range sum.nilIfParam[0] {
+							var arg ast.Expr
+							if j-off >= 0 && j-off < len(x.Args) {
+								arg = x.Args[j-off]
+							} else if sel, isSel := x.Fun.(*ast.SelectorExpr); isSel && j == 0 && off == 1 {
+								arg = sel.X
+							}
+							if arg == nil {
+								all = false
+								continue
+							}
+							if ap := w.path(arg); !(ap != "" && f.nonnil[ap]) && !w.definedNonNil(arg, f) {
+								all = false
+							}
+						}
+						if all {
+							f.nonnil[p] = true
+							return
+						}
+					}
+					if sum.mayReturnNil[0] {
+						f.maybe[p] = why
+					}
+				}
+			}
+		} else {
 			if fn, _ := typeutil.Callee(info, x).(*types.Func); fn != nil {
 				sig := fn.Type().(*types.Signature)
 				if sig.Results().Len() == 1 && !strings.HasPrefix(fn.Name(), "Get") {
@@ -1244,6 +1328,12 @@ func (w *nilWalker) cond(e ast.Expr, f *facts) (*facts, *facts) {
 					delete(nn.isnil, p)
 					nl.isnil[p] = true
 					delete(nl.nonnil, p)
+					// err == nil: the value that came with the error is usable
+					if id, isId := a.(*ast.Ident); isId {
+						for _, lp := range w.errLinks[objOf(w.d.pkg, id)] {
+							nl.nonnil[lp] = true
+						}
+					}
 					// a non-nil slice/pointer says nothing about length
 					if x.Op == token.NEQ {
 						return nn, nl
@@ -1711,6 +1801,28 @@ func (w *nilWalker) returns(x *ast.ReturnStmt, f *facts) {
 				}
 			}
 			w.sum.mayReturnNil[i] = true
+			// … because a parameter is nil, or whatever the arguments?
+			explained := false
+			if isNilIdent(w.d.pkg, r) {
+				for o, j := range w.params {
+					if f.isnil[o.Name()] {
+						if w.sum.nilIfParam == nil {
+							w.sum.nilIfParam = map[int]map[int]bool{}
+						}
+						if w.sum.nilIfParam[i] == nil {
+							w.sum.nilIfParam[i] = map[int]bool{}
+						}
+						w.sum.nilIfParam[i][j] = true
+						explained = true
+					}
+				}
+			}
+			if !explained {
+				if w.sum.uncondNil == nil {
+					w.sum.uncondNil = map[int]bool{}
+				}
+				w.sum.uncondNil[i] = true
+			}
 		}
 	}
 }
